@@ -1491,11 +1491,14 @@ class Controller:
             self.central_cis_links.get(handle) or self.peripheral_cis_links.get(handle)
         ):
             if self.link and cis_link.acl_connection:
-                cis_link.acl_connection.send_ll_control_pdu(
-                    ll.CisTerminateInd(
-                        cis_link.cig_id, cis_link.cis_id, command.reason
-                    ),
-                )
+                try:
+                    cis_link.acl_connection.send_ll_control_pdu(
+                        ll.CisTerminateInd(
+                            cis_link.cig_id, cis_link.cis_id, command.reason
+                        ),
+                    )
+                except InvalidArgumentError:
+                    logger.debug('peer is no longer on the link')
                 self.on_le_cis_disconnected(cis_link.cig_id, cis_link.cis_id)
             # Spec requires handle to be kept after disconnection.
 
